@@ -56,6 +56,7 @@ var PayloadStrings = []string{
 	"\x00", "\x1f", "\n", "\r\n", "\t", "\"", "\\", "\\\"", "<>&", "</script>", "\u2028", "\u2029",
 	"\U0001F600", "\u00e9", "\u65e5\u672c", "\u007f", "\u0080", "\ufeff", " lead", "trail ", "- x", "a: b", "#c", "@", "[", "]", "^", "+", "-", " ",
 	"null", "[]", "{}", "0", "1e21", "~", "yes", "\\u0026", "p\\u003eq", "\\u003c", "C:\\U0001F600", "100%", "%d items", "%s", "%!v(MISSING)", "%%", "a%b",
+	"[m]", "[10m]", "a[1;2m", "[31mFAILED[0m", "\x1b[31mred\x1b[0m", "[0m", "\x1b[",
 }
 
 // LongStrings share their first 60 bytes and differ only near the end.
@@ -919,4 +920,139 @@ func PathTwins(t *rapid.T, a, b V, p Profile) (V, V) {
 	put(ao, n1, f1)
 	put(bo, n2, f2)
 	return ao, bo
+}
+
+// SpellingTwins draws two documents in which one array holds several
+// spellings of the same nested container (the same members in another order,
+// or with a repeated member), as array members or inside member objects; b
+// keeps fewer of them, none, or other ones.
+func SpellingTwins(t *rapid.T) (V, V) {
+	base := []V{float64(Int(t, "st0", 0, 2)), Pick(t, "st1", []V{"x", 3.0, true}), float64(Int(t, "st2", 4, 5))}
+	base = base[:Int(t, "stLen", 2, 3)]
+	spell := func(i int) V {
+		var l []V
+		switch i % 4 {
+		case 0:
+			l = append([]V{}, base...)
+		case 1:
+			l = make([]V, len(base))
+			for k := range base {
+				l[len(base)-1-k] = base[k]
+			}
+		case 2:
+			l = append(append([]V{}, base[1:]...), base[0])
+		default:
+			l = append(append([]V{}, base...), base[0]) // a repeated member
+		}
+		return l
+	}
+	form := Int(t, "stForm", 0, 2)
+	member := func(i int) V {
+		switch form {
+		case 1:
+			return map[string]V{"k": spell(i)}
+		case 2:
+			return map[string]V{"k": []V{spell(i), 1.0}, "z": "z"}
+		}
+		return spell(i)
+	}
+	n := Int(t, "stCopies", 2, 4)
+	var a []V
+	for i := 0; i < n; i++ {
+		a = append(a, member(Int(t, "stSpelling", 0, 3)))
+	}
+	if Chance(t, "stOther", 60) {
+		at := Int(t, "stOtherAt", 0, len(a))
+		a = append(a[:at:at], append([]V{Pick(t, "stOtherV", []V{3.0, "o", map[string]V{"k": []V{9.0}}})}, a[at:]...)...)
+	}
+	var b []V
+	switch Int(t, "stB", 0, 4) {
+	case 0: // all spellings go
+		for _, e := range a {
+			if !isSpellingMember(e, base) {
+				b = append(b, val.Clone(e))
+			}
+		}
+	case 1: // one spelling stays, in yet another order
+		b = []V{member(Int(t, "stKeep", 0, 3))}
+	case 2: // the same members, each spelled differently
+		for i := range a {
+			if isSpellingMember(a[i], base) {
+				b = append(b, member(Int(t, "stRespell", 0, 3)))
+			} else {
+				b = append(b, val.Clone(a[i]))
+			}
+		}
+	case 3: // drop the first element only
+		b = val.Clone(V(a[1:])).([]V)
+	default: // reversed
+		for i := len(a) - 1; i >= 0; i-- {
+			b = append(b, val.Clone(a[i]))
+		}
+	}
+	if b == nil {
+		b = []V{}
+	}
+	if Chance(t, "stUnderKey", 50) {
+		return map[string]V{"s": a, "t": 1.0}, map[string]V{"s": b, "t": 1.0}
+	}
+	return a, b
+}
+
+func isSpellingMember(e V, base []V) bool {
+	switch x := e.(type) {
+	case []V:
+		return len(x) >= len(base) && len(x) <= len(base)+1
+	case map[string]V:
+		_, ok := x["k"].([]V)
+		_, other := x["k"].([]V)
+		if ok && other {
+			if l := x["k"].([]V); len(l) == 1 {
+				return false // the "other" member {"k":[9]}
+			}
+		}
+		return ok
+	}
+	return false
+}
+
+// RepeatedBlocks draws two objects in which two or three sibling keys hold the
+// same container (four or more members), and b applies the same edit to every
+// copy (or to all but one).
+func RepeatedBlocks(t *rapid.T, p Profile) (V, V) {
+	var block V
+	if Chance(t, "blockIsArray", 40) {
+		l := []V{}
+		for i := Int(t, "blockLen", 4, 6); i > 0; i-- {
+			l = append(l, Scalar(t, p))
+		}
+		block = l
+	} else {
+		o := map[string]V{}
+		for i := 0; i < Int(t, "blockKeys", 4, 6); i++ {
+			o[plainKeys[i%len(plainKeys)]+fmt.Sprint(i)] = Scalar(t, p)
+		}
+		if Chance(t, "blockNested", 50) {
+			o["in"] = map[string]V{"q": 1.0, "r": []V{1.0, 2.0}}
+		}
+		block = o
+	}
+	edited := editAt(t, val.Clone(block), p.norm(), 1)
+	names := []string{"b1", "b2", "b3", "a0"}[:Int(t, "blockCopies", 2, 4)]
+	a, b := map[string]V{}, map[string]V{}
+	for i, k := range names {
+		a[k] = val.Clone(block)
+		if i == len(names)-1 && Chance(t, "lastKept", 25) {
+			b[k] = val.Clone(block)
+		} else {
+			b[k] = val.Clone(edited)
+		}
+	}
+	if Chance(t, "blockSibling", 50) {
+		a["zz"], b["zz"] = 1.0, 1.0
+	}
+	if Chance(t, "blocksNested", 30) {
+		return map[string]V{"top": a}, map[string]V{"top": b}
+	}
+	return a, b
 }
